@@ -49,7 +49,7 @@ Section Built.
     f_n f = N.of_nat (length data) /\ f_p f = P /\ f_mod f = w64 (N.of_nat (length data) * M) /\
     f_data f = pack (encode P 0 (values_of f key data)).
   Proof.
-    unfold build. destruct shift_lits as (-> & -> & -> & _).
+    unfold build. destruct shift_lits as (-> & -> & -> & _). destruct start_lits as (-> & -> & _).
     change (N.shiftl 1 32) with two32.
     destruct (N.leb_spec two32 (N.of_nat (length data))) as [|Hn]; [discriminate|].
     destruct (N.ltb_spec 32 P) as [|HP]; [discriminate|].
@@ -63,7 +63,7 @@ Section Built.
   Lemma build_ok P M key data :
     P <= 32 -> N.of_nat (length data) < two32 -> exists f, build hash sort P M key data = Ok f.
   Proof.
-    intros HP Hn. unfold build. destruct shift_lits as (-> & -> & _).
+    intros HP Hn. unfold build. destruct shift_lits as (-> & -> & _). destruct start_lits as (-> & -> & _).
     change (N.shiftl 1 32) with two32.
     destruct (N.leb_spec two32 (N.of_nat (length data))); [lia|].
     destruct (N.ltb_spec 32 P); [lia|].
@@ -99,6 +99,7 @@ Section Built.
     Proof.
       destruct built_bits as (k & Eb & HP & Hc & En & Hfuel).
       unfold gmatch. destruct shift_lits as (_ & _ & _ & _ & _ & -> & _).
+      destruct start_lits as (_ & _ & _ & -> & _). rewrite N.sub_0_r.
       rewrite Eb. apply match_loop_spec; try assumption. reflexivity.
     Qed.
 
@@ -106,6 +107,7 @@ Section Built.
     Proof.
       destruct built_bits as (k & Eb & HP & Hc & En & Hfuel).
       unfold zip_match_any. destruct shift_lits as (_ & _ & _ & _ & _ & _ & -> & _).
+      destruct start_lits as (_ & _ & _ & _ & ->). rewrite N.sub_0_r.
       destruct qs as [|q0 qs']; [reflexivity|]. set (qs := q0 :: qs').
       rewrite Eb. rewrite zip_loop_spec; try assumption; try reflexivity.
       - f_equal. unfold any_in.
@@ -264,7 +266,7 @@ Qed.
 Theorem build_total hash sort P M key data :
   P <= 32 -> N.of_nat (length data) < two32 -> exists f, build hash sort P M key data = Ok f.
 Proof.
-  intros HP Hn. unfold build. destruct shift_lits as (-> & -> & _).
+  intros HP Hn. unfold build. destruct shift_lits as (-> & -> & _). destruct start_lits as (-> & -> & _).
   change (N.shiftl 1 32) with two32.
   destruct (N.leb_spec two32 (N.of_nat (length data))); [lia|].
   destruct (N.ltb_spec 32 P); [lia|].
